@@ -17,6 +17,14 @@ def residual : Stmt → Label → Stmt
   | spawnAndCheck l ch, _ => seq (join l ch) (ifChildOk skip fail)
   | s, _ => s
 
+/-- `seqTrace`: the body run from its start as ONE sequential program in which each blocking point emits its
+return code as an event (and hands control to the main loop: `tick++`), a spawn runs the child inline
+and relays its codes, PT_CALL swallows them; cut after `n` blocking points; ends with the final code.
+It is the model's evaluator run from the start with a budget of blocking points to pass — in that mode
+no `case` label is ever jumped to from outside.  The plugin compares it on every body with an
+independent sequential interpreter (`reference` in props/C08.py). -/
+abbrev seqTrace (fuel : Nat) (body : Stmt) (n : Nat) (st : St) : Option (List Ev) := seqRun fuel body n st
+
 /-- scope of the property: every PT_ macro sits on its own source line, so the `case` labels of one
 function body are pairwise distinct and non-zero (0 = start); the same holds in every child.
 `join`/`spin` are not source forms (they only arise as residuals). -/
